@@ -79,14 +79,22 @@ def snapshot(cfg):
             "tuple": [(s.index.value, s.type.value, s.length, bytes(s.value)) for s in cfg.settings_tuple],
             "block": cfg.config_block,
             "views": [dict(cfg.settings_map("name")), dict(cfg.settings_map("const")), dict(cfg.settings_map("name", pretty=True)), dict(cfg.settings_map("const", pretty=True))],
-            "cached": [None if c is None else dict(c) for c in (cfg._raw_settings, cfg._raw_settings_by_index, cfg._settings, cfg._settings_by_index)],
-            "attrs": [cfg.xorkey, cfg.xorencoded, cfg.pe_export_stamp, cfg.pe_compile_stamp, cfg.architecture, cfg.guardrails],
+            "cached": None,
+            "attrs": {k: v for k, v in sorted(vars(cfg).items()) if not k.startswith("_") and k not in ("settings_tuple", "config_block")},
         }
     )
 
 
 def cache_flags(cfg):
-    return tuple(c is not None for c in (cfg._raw_settings, cfg._raw_settings_by_index, cfg._settings, cfg._settings_by_index))
+    """Shape of the private (cache) attributes, whatever they are called: which are populated, and with how much."""
+    out = []
+    for k, v in sorted(vars(cfg).items()):
+        if k.startswith("_"):
+            try:
+                out.append((k, None if v is None else len(v)))
+            except TypeError:
+                out.append((k, type(v).__name__))
+    return tuple(out)
 
 
 def make_cfg(name, seed):
@@ -237,7 +245,7 @@ def chunk_merged(chunk, acc):
             acc.fail("C14/event-fails-on-fresh-config/" + ev, {"kind": "history", "config": name, "history": [ev], "seed": acc.seed}, "result", r)
     seen = {}
     frontier = [()]
-    seen[(False, False, False, False)] = ()
+    seen[cache_flags(make_cfg(name, acc.seed))] = ()
     while frontier:
         nxt = []
         for hist in frontier:
